@@ -68,6 +68,13 @@ def operations():
     # the same operation on stored state that makes it a no-op: PUT of a
     # trait that already exists (marked by a third element)
     ops.append(('/traits/{name}', 'PUT', 'existing'))
+    # the same read with a query string that is not valid UTF-8: rejecting
+    # the malformed query (400) is for callers the rule admits, the others
+    # are still answered 403
+    for route in sorted(handler.ROUTE_DECLARATIONS):
+        if 'GET' in handler.ROUTE_DECLARATIONS[route] and route not in (
+                '/', ''):
+            ops.append((route, 'GET', 'badquery'))
     return ops
 
 
@@ -79,6 +86,9 @@ def url_of(route, method, variant=None):
         url = url.replace(a, b)
     if route == '/traits/{name}':
         url = '/traits/' + T1 if method != 'PUT' else '/traits/CUSTOM_NEW'
+    if variant == 'badquery':
+        return url + ('?project_id=%ff' if route == '/usages' else
+                      '?name=%ff')
     return (url or '/') + QUERY.get((route, method), '')
 
 
@@ -149,6 +159,10 @@ def fam_callers(version='1.39'):
             return finish(ctx, 'root:%d' % r.status)
         allowed = allowed_formula(route, method, zbool(admin), zbool(service),
                                   zbool(reader), zbool(same))
+        if variant == 'badquery' and route == '/usages':
+            # an undecodable project_id names no project a reader could be
+            # "of"
+            allowed = z3.Or(zbool(admin), zbool(service))
         universal = ref.status in (404, 405, 406, 415) and \
             r.status == ref.status
         if r.status == 403 or universal:
